@@ -572,7 +572,12 @@ def check_region_names(ctx):
     for z in sorted(added):
         for a in ast.walk(fi.node):
             if isinstance(a, ast.Assign) and len(a.targets) == 1 and U(a.targets[0]) == z:
-                t = U(a.value).replace(' ', '')
+                v_ = a.value
+                if isinstance(v_, ast.Call) and U(v_.func) == 'tuple' and len(v_.args) == 1 and isinstance(v_.args[0], ast.Name):
+                    ds_ = [x.value for x in ast.walk(fi.node) if isinstance(x, ast.Assign) and len(x.targets) == 1 and U(x.targets[0]) == v_.args[0].id]
+                    if len(ds_) == 1:          # the argument kept in a local
+                        v_ = ast.Call(func=v_.func, args=[ds_[0]], keywords=[])
+                t = U(v_).replace(' ', '')
                 canon = re.fullmatch(r'tuple\(sorted\(.+\)\)', t) or re.fullmatch(r'tuple\(\(?(\w+)for\1insorted\(.+\)if.+\)?\)', t)
                 operand = re.fullmatch(r'tuple\(\(?(\w+)for\1in(\w+)if.+\)?\)', t)
                 if not canon and not operand:
